@@ -113,7 +113,11 @@ def _natural_loops(b):
                         body.add(z)
                         st.append(z)
             out.append((h, body))
-    return out
+    # a `continue` gives a loop a second back edge: all back edges to one header are one loop
+    merged = {}
+    for h, body in out:
+        merged.setdefault(h, set()).update(body)
+    return list(merged.items())
 
 
 def check_every_path(ctx, anchor, a_starts, b_starts, cut_sponge=True):
